@@ -28,5 +28,15 @@ func Truncate(s string, opts hctx.Map) string {
 	if len(runesTrail) >= size {
 		return trail
 	}
-	return string(runesS[:size-len(runesTrail)]) + trail
+	// cut after the first size-len(trail) characters; slicing s itself keeps
+	// bytes that are not valid UTF-8 as they are
+	n, cut := 0, len(s)
+	for i := range s {
+		if n == size-len(runesTrail) {
+			cut = i
+			break
+		}
+		n++
+	}
+	return s[:cut] + trail
 }
